@@ -328,14 +328,33 @@ package reader
 //@   ensures [an-event-the-task-does-not-select-is-left-to-the-other-tasks] selectAsked && !selectAnswer ==> !result
 //@   loop 1 invariant selectAsked && selectAnswer
 
+// lo.Keys: the keys of the map, as a new slice (samber/lo v1.27: one append per map entry)
+//@ trusted func github.com/samber/lo.Keys[int64 struct{}]
+//@   params in
+//@   ensures forall k int64 :: {mhas(in, k)} k in in ==> (exists i int :: {result[i]} 0 <= i && i < len(result) && result[i] == k)
+//@   ensures freshRef2(result) || result == nil
+//@   modifies fresh([]int64)
+//@ spec incName(c *pb.CollectionInfo) string = ite(c.Schema != nil, c.Schema.Name, "")
+//@ spec incTablesWf(rec map[int64]map[string]*pb.CollectionInfo) bool = forall d1 int64, d2 int64 :: {mget(rec, d1), mget(rec, d2)} d1 in rec && d2 in rec ==> rec[d1] != nil && (d1 != d2 ==> rec[d1] != rec[d2])
 // the body of StartRead (run once): subscribe, request the watches, list, start what is selected, release the watch
 //@ func (*CollectionReader).StartRead$1
 //@   props C13
 //@   requires deref(reader) != nil && deref(reader).metaOp != nil && deref(reader).channelManager != nil
 //@   assumes subsColl == 0 && subsPart == 0 && watchColl == 0 && watchPart == 0 && listedColl == 0 && listedPart == 0
-//@   private subsColl subsPart watchColl watchPart listedColl listedPart startedWatch
+//@   private subsColl subsPart watchColl watchPart listedColl listedPart startedWatch startedColls droppedReports lastDroppedReport maps(int64;struct{}) pb.CollectionInfo.ID arrays(int64)
 //@   loop 1 invariant subsColl >= 1 && subsPart >= 1 && watchColl >= 1 && watchPart >= 1 && listedColl >= 1
+// C13: of the listed incarnations of one (database, name) only the newest stays on record, every other one is marked
+// as repeated (and is then reported as dropped instead of being started)
+//@   loop 1 invariant [each-database-has-its-own-name-table] incTablesWf(recordCreateCollectionTime)
+//@   loop 1 invariant [a-listed-incarnation-is-on-record-or-marked-repeated] forall j int :: {existedCollectionInfos[j]} 0 <= j && j <= rangeindex ==> existedCollectionInfos[j] == recordCreateCollectionTime[existedCollectionInfos[j].DbId][incName(existedCollectionInfos[j])] || existedCollectionInfos[j].ID in repeatedCollectionID
+//@   loop 1 invariant [the-incarnation-on-record-is-the-newest-listed-one] forall j int :: {existedCollectionInfos[j]} 0 <= j && j <= rangeindex ==> existedCollectionInfos[j].DbId in recordCreateCollectionTime && recordCreateCollectionTime[existedCollectionInfos[j].DbId][incName(existedCollectionInfos[j])] != nil && recordCreateCollectionTime[existedCollectionInfos[j].DbId][incName(existedCollectionInfos[j])].CreateTime >= existedCollectionInfos[j].CreateTime
 //@   loop 2 invariant subsColl >= 1 && subsPart >= 1 && watchColl >= 1 && watchPart >= 1 && listedColl >= 1
+// ... and every incarnation marked as repeated has been reported to the channel manager as dropped before the first
+// collection is started
+//@   loop 2 invariant [the-repeated-incarnations-were-reported-as-dropped] droppedReports > old(droppedReports) && (forall id int64 :: {mhas(repeatedCollectionID, id)} id in repeatedCollectionID ==> (exists i int :: {lastDroppedReport[i]} 0 <= i && i < len(lastDroppedReport) && lastDroppedReport[i] == id))
+// an incarnation marked as repeated is never started
+//@   loop 2 invariant [the-marks-are-final] forall id int64 :: {mhas(repeatedCollectionID, id)} (id in repeatedCollectionID) == before(id in repeatedCollectionID)
+//@   loop 2 invariant [no-repeated-incarnation-is-started] forall id int64 :: {mhas(repeatedCollectionID, id)} id in startedColls && !before(id in startedColls) ==> !(id in repeatedCollectionID)
 //@   loop 3 invariant subsColl >= 1 && subsPart >= 1 && watchColl >= 1 && watchPart >= 1 && listedColl >= 1
 
 // ---- C01: the per-stream goroutine hands packs over in the order read, labelled with its own stream ---------------
